@@ -150,3 +150,22 @@ Definition c_eq (a b : curve) : res bool :=
       | _, _ => Err TypeError
       end
   end.
+
+(* Curve.fit_points(points, nodes) and Curve.fit_function(f): discrete least squares *)
+Definition default_fit_nodes (k : kv) (n : nat) : res (list Q) :=
+  do x01 <- closed_linspace n;
+  Ok (map (fun x => Qred (kumin k + (kumax k - kumin k) * x)) x01).
+
+Definition c_fit_points (c : curve) (pts : list pt) (nodes : option (list Q)) : res (list pt) :=
+  if (length pts <? knpts (ckv c))%nat then Err AssertionError else
+  do ns <- match nodes with Some l => Ok l | None => default_fit_nodes (ckv c) (length pts) end;
+  do M <- fit_function (ckv c) ns (cW c);
+  Ok (mat_apply M pts).
+
+(* the nodes fit_function samples: open_linspace(1 + ceil(degree * npts / nspans)) on every span *)
+Definition fit_function_nodes (k : kv) : res (list Q) :=
+  let ks := kknots k in
+  let nspans := (length ks - 1)%nat in
+  let each := (1 + (kdeg k * knpts k + nspans - 1) / nspans)%nat in
+  do x01 <- open_linspace each;
+  Ok (concat (map (fun se : Q * Q => let (s, e) := se in map (fun x => Qred (s + (e - s) * x)) x01) (pairs ks))).
